@@ -29,8 +29,8 @@ func isLookupFunc(fn *types.Func) bool {
 }
 
 func checkC04(ctx *Ctx, r *Report) {
-	r.Explanation = "Structural clauses, each a necessary condition for a part of the property (a reported site is a potential panic/hang; on the pinned tree every reported site was triaged): (1) bounded recursion through references — on the cog-only call graph (static calls, interface calls by class hierarchy, func-typed fields by the values stored into them), every recursive call whose argument derives from the result of an object lookup / reference resolution is guarded: by a visited set or depth bound, or by a dominating kind test restricting the looked-up type to a leaf kind (scalar/enum: nothing to descend into); closures bound to a local variable and calling it are recursion too; lookups include every function returning what a Locate*/Resolve* function returned; loops whose variable is reassigned from a lookup result leave on an already visited reference; a loop that runs until a queue is empty while functions reachable from its body refill that queue skips entries it has already handled; (2) no explicit panic(...) is reachable from the pipeline entry points; (3) single-value type assertions on `any` values are dominated by a comma-ok assertion / type switch on the same expression or sit in the reviewed table; (4) pointers returned with a found-flag/error by cog lookups are not used where the flag was discarded; (5) in the JSON-family parsers, constant indexing into slices owned by the schema libraries is dominated by a length / non-nil / type-presence guard; (6) selections through the kind-specific pointer members of ast.Type (.Scalar, .Ref, .Array, …) on an indexed or ranged collection element are dominated by a kind test on that element (or by a kind-equality with a tested element); (7) every access to a kind-specific member of ast.Type anywhere in cog (AsStruct(), .Struct.…, *.Scalar, …: the accessors dereference a pointer that is nil for any other kind) is dominated by a test that the same access path has that kind — recognised: enclosing conditions, && / || operands, switch on Kind, loop conditions, earlier exit guards, boolean locals, kind-equality with a tested path, Visitor On<K> callbacks, values built by a constructor of that kind, copies and aliases, cog predicates whose body implies a kind (summaries derived from source), (Type, bool) resolvers whose true result has one kind, and — for parameters — the same test at every call site up to five levels up (interface calls included); the type of an enum member is a scalar by construction (checked on every producer); 20 accesses sit in a reviewed table; (8) every constant index into a slice or a string (x.Args[0], parts[1], input[0]) is dominated by a length test on the same access path (len comparisons, non-empty string tests, HasPrefix, switch on len, literals / strings.Split / make of known length, aliases, and — for parameters — every call site), or relies on one of three IR invariants checked on their producers (enums have members, unions have branches, constraints carry an argument), or sits in a reviewed table (38 entries, 20 of them statements about the CUE API); (9) every selection through a pointer member of the IR other than the kind members (Option.Default, PathItem.Index / TypeHint, AssignmentValue.Argument / Envelope, PathIndex.Argument, factory arguments: 44 sites) is dominated by a non-nil test on the same access path, follows an assignment of an address in the same function, or sits in a reviewed table (8 entries); (10) every set that is both probed and filled in a function derives its keys the same way on both sides (a visited set probed with other keys than it is filled with never stops a worklist); (11) every function of a recursive component that leaves early when its argument is in a set records the argument in that set unconditionally between the test and the first call that can come back (translation tables, whose looked-up value is used, are not visited sets); (12) no `for {}` loop has only exits of the form `x == snapshot` with the snapshot taken of a value rather than of a size (no instance on the tree: the rule is run over built-in positive and negative examples on every check); (13) ast.Path values are non-empty at every producer (MakePath rejects \"\", path literals have elements): Last() / RemoveLast() and the converter index them; (14) pointer entries of the lists the configuration loader fills are nil-tested before use."
-	r.NotCovered = "non-constant indexes, IR values given literally in configuration files (add_object, retype_field: trusted to be well-formed enums / unions / constraints), nil dereference of other pointers (Object lookups through Get on missing keys, PathItem.Index, OptionDefault), stack depth on deeply nested acyclic input, time/space blow-up, panics inside third-party libraries."
+	r.Explanation = "Structural clauses, each a necessary condition for a part of the property (a reported site is a potential panic/hang; on the pinned tree every reported site was triaged): (1) bounded recursion through references — on the cog-only call graph (static calls, interface calls by class hierarchy, func-typed fields by the values stored into them), every recursive call whose argument derives from the result of an object lookup / reference resolution is guarded: by a visited set or depth bound, or by a dominating kind test restricting the looked-up type to a leaf kind (scalar/enum: nothing to descend into); closures bound to a local variable and calling it are recursion too; lookups include every function returning what a Locate*/Resolve* function returned; loops whose variable is reassigned from a lookup result leave on an already visited reference; a loop that runs until a queue is empty while functions reachable from its body refill that queue skips entries it has already handled; (2) no explicit panic(...) is reachable from the pipeline entry points; (3) single-value type assertions on `any` values are dominated by a comma-ok assertion / type switch on the same expression or sit in the reviewed table; (4) pointers returned with a found-flag/error by cog lookups are not used where the flag was discarded; (5) in the JSON-family parsers, constant indexing into slices owned by the schema libraries is dominated by a length / non-nil / type-presence guard; (6) selections through the kind-specific pointer members of ast.Type (.Scalar, .Ref, .Array, …) on an indexed or ranged collection element are dominated by a kind test on that element (or by a kind-equality with a tested element); (7) every access to a kind-specific member of ast.Type anywhere in cog (AsStruct(), .Struct.…, *.Scalar, …: the accessors dereference a pointer that is nil for any other kind) is dominated by a test that the same access path has that kind — recognised: enclosing conditions, && / || operands, switch on Kind, loop conditions, earlier exit guards, boolean locals, kind-equality with a tested path, Visitor On<K> callbacks, values built by a constructor of that kind, copies and aliases, cog predicates whose body implies a kind (summaries derived from source), (Type, bool) resolvers whose true result has one kind, and — for parameters — the same test at every call site up to five levels up (interface calls included); the type of an enum member is a scalar by construction (checked on every producer); 20 accesses sit in a reviewed table; (8) every constant index into a slice or a string (x.Args[0], parts[1], input[0]) is dominated by a length test on the same access path (len comparisons, non-empty string tests, HasPrefix, switch on len, literals / strings.Split / make of known length, aliases, and — for parameters — every call site), or relies on one of three IR invariants checked on their producers (enums have members, unions have branches, constraints carry an argument), or sits in a reviewed table (38 entries, 20 of them statements about the CUE API); (9) every selection through a pointer member of the IR other than the kind members (Option.Default, PathItem.Index / TypeHint, AssignmentValue.Argument / Envelope, PathIndex.Argument, factory arguments: 44 sites) is dominated by a non-nil test on the same access path, follows an assignment of an address in the same function, or sits in a reviewed table (8 entries); (10) every set that is both probed and filled in a function derives its keys the same way on both sides (a visited set probed with other keys than it is filled with never stops a worklist); (11) every function of a recursive component that leaves early when its argument is in a set records the argument in that set unconditionally between the test and the first call that can come back (translation tables, whose looked-up value is used, are not visited sets); (12) no `for {}` loop has only exits of the form `x == snapshot` with the snapshot taken of a value rather than of a size (no instance on the tree: the rule is run over built-in positive and negative examples on every check); (13) ast.Path values are non-empty at every producer (MakePath rejects \"\", path literals have elements): Last() / RemoveLast() and the converter index them; (14) pointer entries of the lists the configuration loader fills are nil-tested before use; (15) IR types decoded from the YAML configuration are validated before any accessor can run: (ast.Type).Validate has a clause per kind that rejects a nil payload, empty enums / unions and unknown kinds and descends into nested types, and every configuration struct from which a field chain reaches an ast.Type has a method (or its loader a function) that calls Validate on each chain without dropping the verdict; (16) in the compiler passes an IR node obtained from a lookup is stored elsewhere only through DeepCopy() (the visitors rewrite nodes in place: shared nodes are re-expanded at every visit); (17) on the inclusion graph of the templates of the five languages, an invocation that closes a cycle and follows a reference is excluded for collections defined in terms of themselves (isRecursiveCollection in the else-part, or resolvesToConstraints on every entry)."
+	r.NotCovered = "non-constant indexes, constraints given literally in configuration files (their argument lists are not validated), nil dereference of other pointers (Object lookups through Get on missing keys, PathItem.Index, OptionDefault), stack depth on deeply nested acyclic input, time/space blow-up, panics inside third-party libraries."
 	r.Exhaustive = true
 	r.Assumptions = []string{"text/template converts a panic inside a template function into an error (safeCall): functions only invoked from templates are not entry-point reachable by static edges", "library slices are either nil or populated (a non-nil test is accepted as a guard for index 0)"}
 
